@@ -82,3 +82,47 @@ TIERS = {
     'quick': ['main', 'tmove', 'aprop', 'aeq', 'pocs', 'pair_lt', 'n0', 'kf_inline_gt_max'],
     'thorough': ['main', 'tmove', 'aprop', 'aeq', 'pocs', 'pair_lt', 'pair_gt', 'n0_full', 'kf_inline_gt_max', 'pocca', 'pocma', 'pocca_pocma', 'pocca_pocs', 'pocma_pocs'],
 }
+
+# ---- quick tier: per property, the proofs run on every change (measured: <= ~10 min on 16 cores each).
+# The thorough tier runs every proof that carries an obligation of the property in every configuration.
+_LEAVES = ['ai_destroy_range__pE_pE', 'ai_uninitialized_fill__pE_pE_pcE', 'ai_default_uninitialized_value_construct',
+           'ai_default_uninitialized_copy__mpE_mpE_pE', 'ai_default_uninitialized_copy__pcE_pcE_pE', 'ai_external_range_length__pcE_pcE']
+_CORE = ['svb_append_element__pcE', 'svb_append_element__pE', 'svb_append_copies', 'svb_request_capacity', 'svb_shrink_to_size',
+         'svb_emplace_into_current__pE_pcE', 'svb_emplace_into_reallocation__pE_pcE', 'svb_erase_range', 'svb_erase_at', 'svb_erase_last',
+         'svb_erase_all', 'svb_erase_to_end', 'svb_assign_with_copies', 'svb_copy_assign_default__pcsvb', 'svb_move_assign_default__psvb',
+         'svb_swap_default', 'svb_ctor__ul_pcE_pcA', 'svb_ctor__ul_pcA', 'svb_ctor__pcE_pcE_pcA', 'svb_ctor__psvb', 'svb_ctor__pcA', 'svb_dtor',
+         'svb_append_range__strong_pcE_pcE', 'svb_insert_copies@trivial', 'svb_insert_copies@realloc']
+_TMOVE = ['svb_append_element__pcE', 'svb_request_capacity', 'svb_shrink_to_size', 'svb_emplace_into_reallocation__pE_pcE', 'svb_append_range__strong_pcE_pcE',
+          'ai_default_uninitialized_copy__pE_pE_pE']
+_OBS = ['sv_size', 'sv_capacity', 'sv_max_size', 'sv_empty', 'sv_data__v', 'sv_begin__v', 'sv_end__v', 'sv_inlined', 'sv_inlinable', 'sv_at__ul', 'sv_op_index__ul']
+_PUB = ['sv_push_back__pcE', 'sv_push_back__pE', 'sv_emplace_back__pcE', 'sv_pop_back', 'sv_clear', 'sv_reserve', 'sv_shrink_to_fit', 'sv_resize__ul',
+        'sv_insert__svcit_ul_pcE', 'sv_erase__svcit', 'sv_erase__svcit_svcit', 'sv_assign__ul_pcE', 'sv_append__pcE_pcE']
+_ALLOC = ['svb_copy_assign__pcsvb', 'svb_copy_assign_default__pcsvb', 'svb_move_assign_default__psvb', 'svb_swap_default', 'svb_ctor__psvb', 'sv_get_allocator']
+_GLOBAL = {'main': _LEAVES + _CORE, 'tmove': _TMOVE}
+QUICK = {
+    'C01': {'main': _CORE + _PUB + ['sv_at__ul', 'sv_at__ul_c', 'sv_op_index__ul', 'sv_front__v', 'sv_back__v']},
+    'C02': {'main': _CORE + _OBS + ['sv_shrink_to_fit'], 'tmove': _TMOVE, 'n0': ['svb_append_element__pcE', 'svb_shrink_to_size', 'sv_inlined']},
+    'C03': _GLOBAL, 'C04': dict(_GLOBAL, pair_lt=['svb_move_assign_default__psvbM']), 'C06': _GLOBAL,
+    'C12': dict(_GLOBAL, kf_inline_gt_max=['svb_append_element__pcE'], main=_LEAVES + _CORE + ['svb_unchecked_calculate_new_capacity', 'sv_max_size']),
+    'C13': _GLOBAL,
+    'C05': {'main': ['svb_append_element__pcE', 'svb_append_element__pE', 'svb_request_capacity', 'svb_shrink_to_size', 'svb_resize_with__ul', 'svb_append_range__strong_pcE_pcE',
+                     'svb_append_range__strong_FI_FI', 'svb_emplace_into_reallocation__pE_pcE', 'sv_push_back__pcE', 'sv_push_back__pE', 'sv_emplace_back__pcE', 'sv_reserve',
+                     'sv_shrink_to_fit', 'sv_resize__ul', 'sv_append__pcE_pcE'],
+            'tmove': _TMOVE + ['svb_resize_with__ul', 'svb_append_element__pE']},
+    'C07': {'main': _ALLOC + ['svb_ctor__ul_pcE_pcA', 'svb_ctor__pcA', 'svb_ctor__pcsvb_pcA'], 'aprop': _ALLOC, 'aeq': _ALLOC, 'pocs': _ALLOC},
+    'C09': {'main': ['svb_move_assign_default__psvb', 'svb_swap_default', 'svb_ctor__psvb', 'svb_move_assign_unequal_no_propagate__psvb', 'svb_swap_unequal_no_propagate', 'svb_dtor', 'svb_ctor__pcA'],
+            'pocs': ['svb_swap__psvb', 'svb_swap_default', 'svb_move_assign_default__psvb'], 'aeq': ['svb_swap_default', 'svb_move_assign_default__psvb'],
+            'pair_lt': ['svb_move_assign_default__psvbM']},
+    'C10': {'main': ['svb_append_element__pcE', 'svb_append_element__pE', 'svb_append_copies', 'svb_request_capacity', 'svb_emplace_into_current__pE_pcE',
+                     'svb_emplace_into_reallocation__pE_pcE', 'svb_erase_range', 'svb_erase_at', 'svb_erase_last', 'svb_erase_all', 'svb_erase_to_end', 'svb_assign_with_copies',
+                     'svb_copy_assign_default__pcsvb', 'svb_append_range__strong_pcE_pcE', 'svb_resize_with__ul', 'svb_insert_copies@trivial', 'svb_insert_copies@realloc',
+                     'sv_reserve', 'sv_pop_back', 'sv_clear', 'sv_push_back__pcE']},
+    'C11': {'main': ['svb_append_element__pcE', 'svb_append_copies', 'svb_emplace_into_current__pE_pcE', 'svb_emplace_into_reallocation__pE_pcE', 'svb_insert_copies@trivial',
+                     'svb_insert_copies@realloc', 'svb_insert_copies@tail_ge', 'ai_uninitialized_fill__pE_pE_pcE', 'sv_push_back__pcE', 'sv_emplace_back__pcE', 'sv_insert__svcit_ul_pcE']},
+    'C14': {'main': ['svb_unchecked_calculate_new_capacity', 'svb_append_element__pcE', 'svb_append_copies', 'svb_request_capacity', 'svb_emplace_into_reallocation__pE_pcE',
+                     'svb_assign_with_copies', 'svb_copy_assign_default__pcsvb', 'svb_append_range__strong_pcE_pcE', 'svb_resize_with__ul', 'svb_insert_copies@realloc', 'sv_reserve'],
+            'n0': ['svb_append_element__pcE', 'svb_unchecked_calculate_new_capacity']},
+    'C15': {'main': ['ai_external_range_length__FI_FI', 'ai_default_uninitialized_copy__FI_FI_pE', 'svb_append_range__strong_FI_FI', 'ai_external_range_length__pcE_pcE']},
+    'C18': {'main': ['ai_external_range_length__FI_FI', 'ai_destroy_range__pE_pE', 'svb_erase_last', 'svb_erase_all', 'svb_erase_to_end', 'svb_dtor', 'svb_ctor__pcA', 'svb_ctor__psvb',
+                     'svb_move_assign_default__psvb', 'svb_swap_default', 'sv_size', 'sv_capacity', 'sv_clear', 'sv_pop_back', 'svb_erase_range', 'svb_emplace_into_current__pE_pE']},
+}
